@@ -288,6 +288,40 @@ def extract_syntax():
     write_if_changed(os.path.join(GEN, "Grammar.lean"), t)
     return 0
 
+# ---------------------------------------------------------------------------------------------
+# C16: typing table of the built-in pipes (pipe/pipe_executors.rs) and the builder's family-name format  [agent-refproof]
+# ---------------------------------------------------------------------------------------------
+def extract_pipes():
+    src = open(os.path.join(SRC, "pipe/pipe_executors.rs")).read()
+    as_to_ty = {"as_string_data": "String", "as_parser": "Parser", "as_pre_model": "PreModel", "as_model": "Model",
+                "as_linear_model": "LinearModel", "as_standard_linear_model": "StandardLinearModel", "as_tableau": "Tableau"}
+    rows = []
+    blocks = re.split(r"(?=impl Pipeable for \w+ \{)", src)[1:]
+    for b in blocks:
+        name = re.match(r"impl Pipeable for (\w+) \{", b).group(1)
+        body = b.split("\n//--------------------")[0]
+        m_in = re.search(r"data\.(as_\w+)\(\)\?", body)
+        outs = set(re.findall(r"Ok\(PipeableData::(\w+)\(", body))
+        errs = set(re.findall(r"PipeError::(\w+)", body)) - {"InvalidData"}
+        if not m_in or m_in.group(1) not in as_to_ty or len(outs) > 1 or len(errs) > 1:
+            print(f"extractor could not re-read: pipe {name} (input {m_in and m_in.group(1)}, outputs {outs}, errors {errs})")
+            return 1
+        rows.append((name, as_to_ty[m_in.group(1)], next(iter(outs), ""), next(iter(errs), "-")))
+    mb = open(os.path.join(SRC, "builder/model.rs")).read()
+    fam = re.search(r'self\.add_var\(format!\("([^"]*)"\), var_type\)', mb)
+    if not fam or not rows:
+        print("extractor could not re-read: add_vars family-name format / pipe executors")
+        return 1
+    t = "/- GENERATED by tools/extract.py from pipe/pipe_executors.rs and builder/model.rs — do not edit. -/\nnamespace Rooc.Gen\n"
+    t += "/-- (pipe struct, variant it reads with `as_X()?`, variant it produces (\"\" = none), its `PipeError` variant (\"-\" = cannot fail)) -/\n"
+    t += "def pipeTable : List (String × String × String × String) :=\n  [" + ",\n   ".join(
+        f"({lstr(a)}, {lstr(b)}, {lstr(c)}, {lstr(d)})" for a, b, c, d in rows) + "]\n"
+    t += "/-- the `format!` string of `ModelBuilder::add_vars` member names -/\n"
+    t += f"def familyNameFormat : String := {lstr(fam.group(1))}\n"
+    t += "end Rooc.Gen\n"
+    write_if_changed(os.path.join(GEN, "PipeTable.lean"), t)
+    return 0
+
 def extract_pre():
     """constants of the front half (C06 / C18 / C19 models): reserved names, builtin names, std constants,
     the range size cap -> lean/Rooc/Gen/PreConsts.lean  [agent-pre]"""
@@ -334,6 +368,50 @@ def extract_pre():
     t += f"def maxRangeSize : Nat := {int(m.group(1).replace('_', ''))}\n"
     t += "end Rooc.Gen\n"
     write_if_changed(os.path.join(GEN, "PreConsts.lean"), t)
+    return 0
+
+def extract_linearizer():
+    """names minted by the linearizer and the message templates of LinearizationError (C08)
+    -> lean/Rooc/Gen/LinConsts.lean  [agent-c08proof]"""
+    errs = []
+    src = open(os.path.join(SRC, "transformers/linearizer.rs")).read()
+    ids = ("var_name", "positive_name", "selector", "witness_name")
+    # every `let <id> = ...` for the identifiers that are passed to declare_variable must be a format!("$..") literal
+    fmts = []
+    for m in re.finditer(r"let (var_name|positive_name|selector|witness_name) = (.*?);", src, re.S):
+        f = re.fullmatch(r'format!\(\s*"([^"]*)"\s*(?:,[^;]*)?\)', m.group(2).strip(), re.S)
+        if not f:
+            errs.append("binding of %s is not a format! literal: %s" % (m.group(1), m.group(2)[:60]))
+            continue
+        if f.group(1) not in fmts:
+            fmts.append(f.group(1))
+    calls = [c for c in re.finditer(r"\.declare_variable\(\s*([A-Za-z_]+)(?:\.clone\(\))?\s*,", src)]
+    for c in calls:
+        if c.group(1) not in ids:
+            errs.append("declare_variable called with an unexpected name expression: " + c.group(1))
+    if not fmts or not calls:
+        errs.append("auxiliary-name formats / declare_variable call sites")
+    # Display for LinearizationError: the string literals of the write! calls, continuation lines joined
+    m = re.search(r"impl Display for LinearizationError \{(.*?)\n\}\n", src, re.S)
+    tmpls = []
+    if m:
+        for w in re.finditer(r'write!\(\s*f,\s*"((?:[^"\\]|\\.)*)"', m.group(1), re.S):
+            t = re.sub(r"\\\n\s*", "", w.group(1))          # `\` + newline + indentation = continuation
+            t = t.replace('\\"', '"')
+            tmpls.append(t)
+    if len(tmpls) != 7:
+        errs.append("Display for LinearizationError: %d write! templates instead of 7" % len(tmpls))
+    if errs:
+        print("extractor could not re-read: " + "; ".join(errs))
+        return 1
+    lst = lambda xs: "[" + ", ".join(lstr(x) for x in xs) + "]"
+    t = "/- GENERATED by tools/extract.py from transformers/linearizer.rs — do not edit. -/\nnamespace Rooc.Gen\n"
+    t += "/-- the `format!` literals bound to the identifiers handed to `declare_variable` (every auxiliary name) -/\n"
+    t += f"def linAuxNameFormats : List String := {lst(fmts)}\n"
+    t += "/-- the `write!` templates of `impl Display for LinearizationError`, in the order of the enum -/\n"
+    t += f"def linErrorTemplates : List String := {lst(tmpls)}\n"
+    t += "end Rooc.Gen\n"
+    write_if_changed(os.path.join(GEN, "LinConsts.lean"), t)
     return 0
 
 def main():
@@ -415,7 +493,13 @@ def main():
     rc = extract_syntax()
     if rc:
         return rc
+    rc = extract_pipes()
+    if rc:
+        return rc
     rc = extract_pre()
+    if rc:
+        return rc
+    rc = extract_linearizer()
     if rc:
         return rc
     # --- operator tables by runtime reflection through the harness (C18 / C19), see tools/gen_optables.py
